@@ -74,6 +74,7 @@ func checkC10(c *Ctx, r *Report) {
 	c10DedupAfterSort(c, r, "C10.R1.dedup-after-sort")
 	r.rule("C10.R1.ecdsa-sig-length", 1, "RRSIG.Verify compares the ECDSA signature length with twice the curve size before splitting it into r and s")
 	ecdsaSigLength(c, r, "C10.R1.ecdsa-sig-length", "RRSIG.Verify", "a signature padded with leading zero octets in r and s (66 instead of 64 octets) verifies although it is not the RFC 6605 encoding: Verify succeeds for octets that are not a signature of the canonical form")
+	c10RRsetInputs(c, r, "C10.R1.rrset-inputs")
 }
 
 // c17R6as runs the RSA size-limit rule under another rule id (shared by C10, C17, C18).
